@@ -2,15 +2,13 @@
 # tools/seedwt.sh <seed-id> <check id>...   run checks against a scratch worktree of /repo HEAD with the seeded change applied
 # (VERIF_REPO=<worktree>; evidence / replay go to /var/tmp); parallel-safe, /repo itself is not touched
 S="$1"; shift
-WT=/tmp/swt_$S
-P=/verif/seeded/$S/patch.diff
-[ -f "$P" ] || P="$S"
+if [ -f "$S" ]; then P="$S"; TAG=b_$(basename $(dirname "$S")); else P=/verif/seeded/$S/patch.diff; TAG=$S; fi
+WT=/tmp/swt_$TAG
 cd /verif
 git -C /repo worktree remove --force $WT >/dev/null 2>&1
 git -C /repo worktree add --detach -q $WT HEAD || exit 9
 cp /repo/src/vector/_version.py $WT/src/vector/_version.py
 git -C $WT apply "$P" || { echo "$S patch does not apply"; git -C /repo worktree remove --force $WT; exit 9; }
-TAG=$(basename $S)
 for c in "$@"; do
   VERIF_REPO=$WT timeout 1500 ./check $c > /var/tmp/seedwt_${TAG}_$c.log 2>&1; rc=$?
   echo "$TAG $c exit=$rc violations=$(grep -c '^VIOLATION' /var/tmp/seedwt_${TAG}_$c.log) undecided=$(grep -c '^UNDECIDED' /var/tmp/seedwt_${TAG}_$c.log) :: $(grep '^VIOLATION' /var/tmp/seedwt_${TAG}_$c.log | head -2 | sed 's/.*obligation=//' | cut -c1-110 | tr '\n' ';')"
